@@ -92,7 +92,7 @@ def phys(M, mag_s, unit):
 
 def shards(tier, seed):
     out = [("alphabet", "Fraction"), ("alphabet", "float"), ("alphabet", "Fraction", "after-named-system-queries"), ("alphabet", "Fraction", "default_system=cgs"), ("alphabet", "Fraction", "default_system=imperial"),
-           ("alphabet", "Fraction", "after-default-system-round-trip"), ("decimal-magnitudes",), ("numbers", "Fraction"), ("numbers", "float"), ("units", "Fraction"), ("units", "float"), ("modes",)]
+           ("alphabet", "Fraction", "after-default-system-round-trip"), ("decimal-magnitudes",), ("numbers", "Fraction"), ("numbers", "float"), ("units", "Fraction"), ("units", "float"), ("modes",), ("constructor-paths",)] + [("object-histories", i) for i in range(len(OBJ_STARTS))]
     if tier == "thorough":
         for b in range(12):
             out.append(("allunits", b, 12))
@@ -256,6 +256,143 @@ def run_decimal_magnitudes(acc):
                 acc.violation(["quantity-law", "ordering", "a<b-disagrees-with-b>a", "Decimal-magnitudes-in-the-float-registry"], case, lt, lt2)
     acc.outcome("decimal-magnitudes")
     acc.sample({"clause": "quantity-law", "registry": "float", "magnitudes": "Decimal", "a": ["1", "kilometer"], "b": ["1000", "meter"]})
+
+
+OBJ_STARTS = [("scalar", 6.0, "meter"), ("scalar", 0.0, "meter"), ("array", [0.0, 1.0, 6.0], "meter"), ("scalar", 500.0, "nanometer"), ("scalar", 600.0, "terahertz"), ("scalar", 0.0, "percent"), ("scalar", 50.0, "percent")]
+OBJ_STEPS = [
+    ("read",), ("floordiv", 2.0, "second"), ("floordiv", 1.0, "meter"), ("mul", 2.0, "second"), ("div", 4.0, "inch"), ("pow", 2),
+    ("ito_base",), ("ito_root",), ("ito_reduced",), ("ito", "kilometer"), ("ito", "terahertz", "sp"), ("ito", "nanometer", "sp"), ("ito", "dimensionless"), ("ito", "kilometer**2"), ("ito", "kilometer*hour"),
+]
+
+
+def run_object_histories(acc, only=None):
+    """equality and ordering are about the value a quantity HAS: a quantity that reached its magnitude and units through
+    in-place arithmetic and in-place conversions (also through a context) compares, with every partner and in both operand
+    orders, exactly like a freshly built quantity of that magnitude and those units. All step sequences up to length 3."""
+    import numpy as np
+    ureg = regs.default("float", fresh=True)
+    Q = ureg.Quantity
+    partners = [("1 meter", Q(1.0, "meter")), ("0 meter", Q(0.0, "meter")), ("1 second", Q(1.0, "second")), ("0 second", Q(0.0, "second")), ("1", Q(1.0, "")), ("0", Q(0.0, "")),
+                ("600 THz", Q(600.0, "terahertz")), ("1 GHz", Q(1.0, "gigahertz")), ("500 nm", Q(500.0, "nanometer")), ("0 percent", Q(0.0, "percent")), ("1 m**2", Q(1.0, "meter**2")),
+                ("1 m/s", Q(1.0, "meter/second")), ("1 m*s", Q(1.0, "meter*second")), ("number 0", 0)]
+    ops = [("==", lambda x, y: x == y), ("!=", lambda x, y: x != y), ("<", lambda x, y: x < y), ("<=", lambda x, y: x <= y), (">", lambda x, y: x > y), (">=", lambda x, y: x >= y)]
+
+    def norm(o):
+        if o[0] != "ok":
+            return (o[0],)
+        v = o[1]
+        return ("ok", tuple(np.asarray(v).ravel().tolist()), np.asarray(v).shape)
+
+    def apply(q, st):
+        k = st[0]
+        if k == "read":
+            q.dimensionality
+        elif k == "floordiv":
+            q //= Q(st[1], st[2])
+        elif k == "mul":
+            q *= Q(st[1], st[2])
+        elif k == "div":
+            q /= Q(st[1], st[2])
+        elif k == "pow":
+            q **= st[1]
+        elif k == "ito_base":
+            q.ito_base_units()
+        elif k == "ito_root":
+            q.ito_root_units()
+        elif k == "ito_reduced":
+            q.ito_reduced_units()
+        elif k == "ito":
+            q.ito(*st[1:])
+        return q
+
+    for si, (kind, m0, u0) in enumerate(OBJ_STARTS):
+        if only is not None and si != only:
+            continue
+        for depth in (1, 2, 3):
+            for steps in itertools.product(OBJ_STEPS, repeat=depth):
+                if not any(s[0].startswith("ito") for s in steps) or steps[-1][0] == "read":
+                    continue  # without an in-place conversion, and ending in a read, nothing new is reached
+                def build():
+                    q = Q(np.array(m0) if kind == "array" else m0, u0)
+                    for st in steps:
+                        q = apply(q, st)
+                    return q
+                o = call(build)
+                if o[0] != "ok":
+                    continue
+                worn = o[1]
+                mag = worn.magnitude
+                if np.any(np.isnan(np.asarray(mag, dtype=float))):
+                    continue
+                fresh = Q(np.array(mag, copy=True) if kind == "array" else mag, worn.units)
+                acc.nt(("object-history", kind, str(m0), u0, steps))
+                for pname, pq in partners:
+                    for opn, op in ops:
+                        for order in ("worn-op-partner", "partner-op-worn"):
+                            acc.ev()
+                            if order == "worn-op-partner":
+                                a, b = call(lambda: op(worn, pq)), call(lambda: op(fresh, pq))
+                            else:
+                                a, b = call(lambda: op(pq, worn)), call(lambda: op(pq, fresh))
+                            if norm(a) != norm(b):
+                                acc.violation(["quantity-pair", "==" if opn in ("==", "!=") else "ordering", "in-place-history-of-the-object-changes-the-answer", "via-context" if any(len(s) > 2 and s[0] == "ito" for s in steps) else "in-place-arithmetic-then-conversion"],
+                                              {"start": [m0, u0], "steps": [list(s) for s in steps], "partner": pname, "op": opn, "order": order, "now": str(worn)}, repr(norm(b))[:120], repr(norm(a))[:120])
+                acc.ev()
+                ha, hb = call(lambda: hash(worn)), call(lambda: hash(fresh))
+                if kind == "scalar" and ha != hb:
+                    acc.violation(["quantity-pair", "hash", "in-place-history-of-the-object-changes-the-answer", "hash"], {"start": [m0, u0], "steps": [list(s) for s in steps]}, hb, ha)
+    acc.outcome("object-histories")
+    acc.sample({"clause": "object-history", "start": [500.0, "nanometer"], "steps": [["read"], ["ito", "terahertz", "sp"]], "partner": "1 GHz", "op": ">"})
+
+
+def run_constructor_paths(acc):
+    """the same quantity reached through every way of building it in ONE registry (registry.Quantity, the generic pint.Quantity
+    class bound to the application registry, unit arithmetic, parsing, a pickle round trip, copy): all pairs compare equal in
+    both orders and hash alike, and order like the quantity itself"""
+    import copy
+    import pickle
+    pint = core.boot()
+    ureg = regs.default("Fraction", fresh=True)
+    before = pint.get_application_registry().get()
+    pint.set_application_registry(ureg)
+    try:
+        for m, u in ALPHABET:
+            if m in ("nan",):
+                continue
+            mag = parse_mag(m, "Fraction")
+            ways = {
+                "registry.Quantity(m, u)": lambda: ureg.Quantity(mag, u),
+                "pint.Quantity(m, u)": lambda: pint.Quantity(mag, u),
+                "pint.Quantity(m, pint.Unit(u))": lambda: pint.Quantity(mag, pint.Unit(u)),
+                "m * registry.Unit(u)": lambda: mag * ureg.Unit(u),
+                "pickle round trip": lambda: pickle.loads(pickle.dumps(ureg.Quantity(mag, u))),
+                "pickle round trip of pint.Quantity": lambda: pickle.loads(pickle.dumps(pint.Quantity(mag, u))),
+                "deepcopy": lambda: copy.deepcopy(ureg.Quantity(mag, u)),
+                "copy of pint.Quantity": lambda: copy.copy(pint.Quantity(mag, u)),
+                "pint.Quantity * 1": lambda: pint.Quantity(mag, u) * 1,
+            }
+            objs = {k: call(f) for k, f in ways.items()}
+            objs = {k: o[1] for k, o in objs.items() if o[0] == "ok"}
+            for (ka, a), (kb, b) in itertools.product(objs.items(), repeat=2):
+                acc.ev()
+                acc.nt(("ctor", m, u, ka, kb))
+                case = {"a": [m, u], "built-by": [ka, kb]}
+                e = call(lambda: a == b)
+                if e[0] != "ok":
+                    continue  # (offset quantities against zero etc.: refusals are run_alphabet's subject)
+                if e[1] is not True:
+                    acc.violation(["quantity-pair", "==", "same-quantity-built-two-ways-is-not-equal", ""], case, True, e)
+                    continue
+                ha, hb = call(lambda: hash(a)), call(lambda: hash(b))
+                if ha != hb:
+                    acc.violation(["quantity-pair", "hash", "equal-quantities-hash-differently", "built-two-ways"], case, "hash(a) == hash(b)", [ha, hb])
+                lt = call(lambda: a < b)
+                if lt[0] == "ok" and lt[1] is not False:
+                    acc.violation(["quantity-pair", "ordering", "same-quantity-built-two-ways-orders-strictly", ""], case, False, lt)
+    finally:
+        pint.set_application_registry(before)
+    acc.outcome("constructor-paths")
+    acc.sample({"clause": "constructor-paths", "a": ["3", "meter"], "built-by": ["pint.Quantity(m, u)", "registry.Quantity(m, u)"]})
 
 
 def run_numbers(acc, nt):
@@ -436,6 +573,10 @@ def run_shard(acc, shard, tier, seed):
         run_units(acc, shard[1])
     elif k == "modes":
         run_modes(acc)
+    elif k == "constructor-paths":
+        run_constructor_paths(acc)
+    elif k == "object-histories":
+        run_object_histories(acc, shard[1])
     elif k == "allunits":
         run_allunits(acc, shard[1], shard[2])
     else:
@@ -446,7 +587,11 @@ def replay(rec):
     site, case = rec["site"], rec["case"]
     acc = core.Acc(PROPERTY)
     nt = case.get("nt", "Fraction")
-    if site[-1] == "Decimal-magnitudes-in-the-float-registry":
+    if site[2] == "in-place-history-of-the-object-changes-the-answer":
+        run_object_histories(acc, [i for i, st in enumerate(OBJ_STARTS) if [st[1], st[2]] == case["start"]][0])
+    elif "built-by" in case:
+        run_constructor_paths(acc)
+    elif site[-1] == "Decimal-magnitudes-in-the-float-registry":
         run_decimal_magnitudes(acc)
     elif site[0] in ("quantity-pair", "quantity-law"):
         run_alphabet(acc, nt, case.get("registry_history", "fresh"))
